@@ -33,7 +33,7 @@ def fn_body(src, name):
     return params, src[i:j - 1]
 
 
-TOK = re.compile(r"\s*(?:(//[^\n]*)|(0x[0-9A-Fa-f_]+|\d[\d_]*)|([A-Za-z_][A-Za-z_0-9]*(?:::[A-Za-z_][A-Za-z_0-9]*)*)|(<<|>>|<=|>=|==|!=|&&|\|\||[-+*/%<>(){}\[\],;=!&|^]))")
+TOK = re.compile(r"\s*(?:(//[^\n]*)|(0x[0-9A-Fa-f_]+|\d[\d_]*)|([A-Za-z_][A-Za-z_0-9]*(?:::[A-Za-z_][A-Za-z_0-9]*)*)|(<<|>>|<=|>=|==|!=|&&|\|\||[-+*/%<>(){}\[\],;=!&|^.]))")
 
 
 def tokens(text):
@@ -132,6 +132,12 @@ class P:
         if self.peek() == "!":
             self.eat(); a = self.unary(); return ("bool", "(negb %s)" % self.b(a))
         a = self.atom()
+        while self.peek() == ".":
+            self.eat(); meth = self.eat()
+            if meth != "saturating_sub":
+                raise Unsupported("method .%s" % meth)
+            self.eat("("); b = self.expr(); self.eat(")")
+            a = ("num", "(%s - %s)" % (self.n(a), self.n(b)))       # N subtraction truncates at 0
         while self.peek() == "as":
             self.eat(); ty = self.eat()
             # only casts that cannot lose bits for the byte-sized operands of the translated expressions
@@ -258,6 +264,9 @@ LETS = [
     ("src/codec/opus.rs", "opus_frame_count", "code", "opus_code_src", ["toc"], "num"),
     ("src/codec/opus.rs", "opus_frame_count", "count", "opus_count_src", ["frame_count_byte"], "num"),
     ("src/codec/opus.rs", "opus_frame_count", "is_vbr", "opus_is_vbr_src", ["frame_count_byte"], "bool"),
+    ("src/muxer/mp4.rs", "encode_language_code", "packed", "language_packed_src", ["c1", "c2", "c3"], "num"),
+    ("src/codec/h264.rs", "extract_avc_config", "nal_type", "h264_nal_type_src_a", ["nal0"], "num"),
+    ("src/codec/h264.rs", "is_h264_keyframe", "nal_type", "h264_nal_type_src_b", ["nal0"], "num"),
 ]
 
 
